@@ -17,7 +17,7 @@ RULE = ('every opcode cell of the 1-byte, 0F, 0F38 and 0F3A maps x all 256 ModRM
         'both decoders accept; classes = (opcode cell, prefix, mod).')
 RULE += " Round 6: a 'stringops' shard puts the string instructions and the other prefix-sensitive one-byte opcodes under every ordered pair and some triples of rep / operand-size / address-size / segment prefixes; where GNU as cannot read a rendering, the repeat prefix is compared as well wherever IA-32 gives it a meaning (f3 on every string instruction, f2 on cmps/scas)."
 RULE += ' Round 7: all 256 immediates on shift / rotate / double-shift / bit-test / MMX-shift / aam-aad forms (count grid).'
-RULE += ' Round 10: one string in eight is first decoded for a 16-bit code segment (result dropped) and only then decoded as usual: that decode is the one judged against the reference and must equal the decode of the string with one more trailing byte; the last decoded object with the same second byte is printed again after every decode and must print as before (instruction objects stay valid while others are decoded).'
+RULE += ' Round 10: one string in eight is first decoded for a 16-bit code segment (result dropped) and only then decoded as usual: that decode is the one judged against the reference and must equal the decode of the string with one more trailing byte; the last decoded object with the same second byte is printed again after every decode and must print as before (instruction objects stay valid while others are decoded); one string in eight is also decoded with configuration strings built at run time and sent through a pickle round trip: same length, bytes and text.'
 RULE += ' Round 8: one accepted string in eight is decoded a second and third time through a library stream positioned at a non-zero offset (followed by other bytes / ending exactly with the instruction): length, raw bytes, text and bytes consumed must be those of the plain decode.'
 ASSUMPTIONS = ['GNU binutils 2.40 (objdump -M intel, as --32) is the reading of IA-32 bytes and Intel text; LLVM 14 llvm-objdump is the tie-breaker: '
                'when it disagrees with objdump about the length the case is a reference disagreement, not a violation',
@@ -69,6 +69,20 @@ def analyse(sh, items, tier):
             sh.counters['render_raises(C10)'] += 1
             continue
         dec.append((b, cls, ins.l, bytes(ins.b), text, ins.m.name))
+        if (b[0] + nth) % 8 == 5:
+            # objects that are equal to the decoded one without being it: a pickle round trip, and a decode whose configuration
+            # strings were built at run time (equal to the library's constants, not identical): same length, bytes and text
+            import pickle
+            sh.counters['equal_objects_printed'] += 1
+            for name, mk in (('pickled', lambda: pickle.loads(pickle.dumps(ins))), ('runtime-built-mode-strings', lambda: x86mnemo.dis(b, {'opmode': ''.join(['u', '3', '2']), 'admode': ''.join(['u', '3', '2'])}))):
+                try:
+                    o_ = mk()
+                    got = None if o_ is None else (o_.l, bytes(o_.b), str(o_))
+                except Exception as e_:
+                    got = 'raises %s' % type(e_).__name__
+                if got != (ins.l, bytes(ins.b), text):
+                    sh.case(('equal-object', name, b), True, cls=None)
+                    sh.violation('equal-object/%s' % name, 'bytes %s decode as %r; the %s equal object gives %r' % (b.hex(), (ins.l, bytes(ins.b).hex(), text), name, got if not isinstance(got, tuple) else (got[0], got[1].hex(), got[2])), {'bytes': b.hex()})
         # decoded instruction objects stay valid while other strings are decoded: the last object whose second byte was the same
         # (same ModRM row under another opcode, same opcode under another prefix) is printed again
         k2 = b[1] if len(b) > 1 else -1
